@@ -26,9 +26,34 @@ Assumptions, stated where the theorems are (they are also in the evidence file):
   (evaluated on every tear the run synthesises).
 `CommitCtx.Ok.cow` (the commit writes no page of the snapshot it started from) is Jamm.Props.C12
 `previous_snapshot_intact` / C03 on the protocol model, and is checked per commit on real files.
+
+THE SAME AT THE LEVEL OF FILE BYTES (second half of this file; `Model/CommitFile.lean`,
+`Proofs/CommitFile*.lean`): the composition of the header choice, the whole-database round trip and the
+page writers, at the regenerated layout and checksum order, for every page size that holds a header record.
+`openFile` is what `open` shows of a byte source (header choice, walk of every bucket from the root page,
+free-list page); `commitFile` is `write_data` as a function on bytes.  `Committed s slot st` = state `st` is
+stored in `s` under header slot `slot` on pages ≥ 2 and the other slot loses the choice.  Proved:
+* `any_partial_commit_shows_previous_state`: EVERY byte source that keeps the bytes the previous state owns
+  (its header page, its tree runs, its free-list run) opens as exactly the previous state, whatever was
+  written elsewhere — any subset of a commit's data writes, torn at any granularity, arbitrary garbage — as
+  long as the other header page is unchanged or does not verify (no sampling of subsets, no sector assumption);
+* `data_writes_alone_show_previous_state`: in particular the file after all data writes and before the header;
+* `completed_commit_shows_new_state`: after the header write `open` shows exactly the new state (every bucket
+  at every depth, values, counters, free list), the file is again `Committed` (so the statement iterates over
+  any number of commits), and the previous state is still stored under the old slot;
+* `damaged_new_header_shows_previous_state`: after a completed commit, any damage confined to the new header
+  page that makes it fail verification gives back exactly the previous state (C12's fallback, in bytes);
+* `fresh_file_is_committed`: the premises are satisfiable (a four-page file as `init_file` writes it).
+What these do NOT cover: that the real commit writes only pages the previous state does not own is the
+hypothesis `CommitOK.sep` — Layer A proves it of the allocator model (`reader_pages_never_written`, C03), and
+the run evaluates it on the observed writes of every real commit against the decoded previous file
+(`jmodel cow`); the durable-subset semantics of a power loss is `Io.lean` above.
 -/
 import Jamm.Proofs.IoLemmas
+import Jamm.Proofs.CommitFileAtomic
 import Jamm.Gen.Steps
+import Jamm.Gen.Layout
+import Jamm.Gen.HashOrder
 set_option linter.unusedSectionVars false
 
 namespace Jamm.Props.C02
@@ -63,5 +88,157 @@ theorem pinned_order_not_atomic :
     ∃ (c : CommitCtx), c.Ok ∧ ∃ (k : Nat) (fates : List Fate),
       ¬ Atomic c ((({ durable := c.img0, pending := [] } : Disk).run ((unsyncedShape c).take k)).crash fates) :=
   unsynced_not_atomic
+
+/-! ## The same at the level of file bytes -/
+
+/-- the shape of a file between commits, at the regenerated layout and checksum order -/
+abbrev CommittedFile (pagesize : Nat) (ov : Nat → Nat) (s : Src) (slot : Nat) (st : Opened) : Prop :=
+  Committed Gen.layout Gen.hashOrder pagesize ov s slot st
+
+theorem layout_fit_for_commit : Layout.WFEnc Gen.layout = true ∧ Layout.WFMeta Gen.layout = true := by decide
+
+/-- every byte source that keeps the bytes the previous state owns opens as exactly the previous state, whatever
+else it holds, as long as the other header page has the bytes it had or does not verify -/
+theorem any_partial_commit_shows_previous_state (pagesize : Nat)
+    (hrec : Gen.layout.pgPtr + Gen.layout.metaSize ≤ pagesize) (ov : Nat → Nat) (s c : Src) (slot : Nat)
+    (hslot : slot = 0 ∨ slot = 1) (old : Opened) (h : CommittedFile pagesize ov s slot old)
+    (k : KeepsState pagesize ov s c slot old)
+    (hother : Src.AgreeOn s c ((1 - slot) * pagesize) ((1 - slot) * pagesize + pagesize) ∨
+      slotValid Gen.layout Gen.hashOrder c pagesize (1 - slot) = none)
+    (fuel : Nat) (hf : old.view.weight ≤ fuel) :
+    openFile Gen.layout Gen.hashOrder pagesize fuel c = some old := by
+  have hE := layout_fit_for_commit.1
+  have hL := layout_fit_for_commit.2
+  have hhdr : Gen.layout.pageSize ≤ pagesize := Nat.le_trans (by decide) hrec
+  refine crash_shows_old Gen.layout Gen.hashOrder pagesize (Layout.WF.of _ hE) (Layout.WFM.of _ hL) hrec hhdr ov s c
+    slot hslot old h.1 k ?_ fuel hf
+  rcases hother with e | e
+  · rw [slotValid_agree Gen.layout Gen.hashOrder pagesize (Layout.WFM.of _ hL) hrec s c (1 - slot) k.1 e]
+    exact h.2.2
+  · rw [e]; trivial
+
+/-- the file after all the data writes of a commit and before its header write shows the previous state -/
+theorem data_writes_alone_show_previous_state (pagesize : Nat)
+    (hrec : Gen.layout.pgPtr + Gen.layout.metaSize ≤ pagesize) (ov : Nat → Nat) (s : Src) (slot : Nat)
+    (hslot : slot = 0 ∨ slot = 1) (old new : Opened) (h : CommittedFile pagesize ov s slot old)
+    (c : CommitOK Gen.layout Gen.hashOrder pagesize ov s old new) (fuel : Nat) (hf : old.view.weight ≤ fuel) :
+    openFile Gen.layout Gen.hashOrder pagesize fuel (commitData Gen.layout pagesize ov new s) = some old := by
+  have hE := layout_fit_for_commit.1
+  have hL := layout_fit_for_commit.2
+  have hhdr : Gen.layout.pageSize ≤ pagesize := Nat.le_trans (by decide) hrec
+  have k1 := commitData_keeps_old Gen.layout Gen.hashOrder pagesize hE hL hhdr ov s slot (by omega) old new c
+  have k2 := commitData_keeps_old Gen.layout Gen.hashOrder pagesize hE hL hhdr ov s (1 - slot) (by omega) old new c
+  exact any_partial_commit_shows_previous_state pagesize hrec ov s _ slot hslot old h k1 (Or.inl k2.2.1) fuel hf
+
+/-- the completed commit shows exactly the new state, is again a committed file, and still stores the previous
+state under the old slot -/
+theorem completed_commit_shows_new_state (pagesize : Nat)
+    (hrec : Gen.layout.pgPtr + Gen.layout.metaSize ≤ pagesize) (ov : Nat → Nat) (s : Src) (slot : Nat)
+    (hslot : slot = 0 ∨ slot = 1) (old new : Opened) (h : CommittedFile pagesize ov s slot old)
+    (c : CommitOK Gen.layout Gen.hashOrder pagesize ov s old new) (fuel : Nat) (hf : new.view.weight ≤ fuel) :
+    openFile Gen.layout Gen.hashOrder pagesize fuel (commitFile Gen.layout pagesize ov (1 - slot) new s) = some new ∧
+    CommittedFile pagesize ov (commitFile Gen.layout pagesize ov (1 - slot) new s) (1 - slot) new ∧
+    Holds Gen.layout Gen.hashOrder pagesize ov (commitFile Gen.layout pagesize ov (1 - slot) new s) slot old := by
+  have hhdr : Gen.layout.pageSize ≤ pagesize := Nat.le_trans (by decide) hrec
+  obtain ⟨h1, h2, h3, h4⟩ := commit_shows_new Gen.layout Gen.hashOrder pagesize layout_fit_for_commit.1
+    layout_fit_for_commit.2 hrec hhdr ov s slot hslot old new h.1 h.2.1 c fuel hf
+  exact ⟨h1, ⟨h2, c.above, h4⟩, h3⟩
+
+/-- COPY-ON-WRITE COMMITS (the general case: the new state shares every page it did not change with the previous
+one).  `s1` is any byte source — e.g. the file after the data writes of a real commit — in which the previous state
+still holds and the new state's pages are stored, however they got there.  After the header write `open` shows
+exactly the new state, the file is again committed, the previous state is still stored under the old slot.
+Together with `any_partial_commit_shows_previous_state` (which needs nothing of the new state): every crash
+image of such a commit opens as exactly the previous or exactly the new state.  The run evaluates both premises on
+every real commit of the C02 stream (`jmodel cow`: no data write touches a page the decoded previous state owns
+or a header page; the view decoded from the new header is already readable from the file without the header) -/
+theorem header_write_switches_states (pagesize : Nat)
+    (hrec : Gen.layout.pgPtr + Gen.layout.metaSize ≤ pagesize) (ov ov' : Nat → Nat) (s1 : Src) (slot : Nat)
+    (hslot : slot = 0 ∨ slot = 1) (old new : Opened)
+    (hold : Holds Gen.layout Gen.hashOrder pagesize ov s1 slot old) (habove : ∀ r ∈ old.runs ov, 2 ≤ r.1)
+    (hst : StoredV Gen.layout pagesize ov' s1 new.view)
+    (hfl : ∃ p, decodePage Gen.layout s1 pagesize new.hdr.freelistPage = .ok p ∧ p.body = .freelist new.free ∧
+      p.overflow = new.flOverflow)
+    (c : HeaderOK Gen.layout Gen.hashOrder pagesize ov' s1 old new) (fuel : Nat) (hf : new.view.weight ≤ fuel) :
+    openFile Gen.layout Gen.hashOrder pagesize fuel (writeMetaPage Gen.layout pagesize (1 - slot) new.hdr s1) = some new ∧
+    CommittedFile pagesize ov' (writeMetaPage Gen.layout pagesize (1 - slot) new.hdr s1) (1 - slot) new ∧
+    Holds Gen.layout Gen.hashOrder pagesize ov (writeMetaPage Gen.layout pagesize (1 - slot) new.hdr s1) slot old := by
+  have hhdr : Gen.layout.pageSize ≤ pagesize := Nat.le_trans (by decide) hrec
+  obtain ⟨h1, h2, h3, h4⟩ := header_write_switches Gen.layout Gen.hashOrder pagesize layout_fit_for_commit.1
+    layout_fit_for_commit.2 hrec hhdr ov ov' s1 slot hslot old new hold habove hst hfl c fuel hf
+  exact ⟨h1, ⟨h2, c.above, h4⟩, h3⟩
+
+/-- after a completed commit, whatever happens to the new header page: if it no longer verifies, `open` shows
+exactly the previous state -/
+theorem damaged_new_header_shows_previous_state (pagesize : Nat)
+    (hrec : Gen.layout.pgPtr + Gen.layout.metaSize ≤ pagesize) (ov : Nat → Nat) (s d : Src) (slot : Nat)
+    (hslot : slot = 0 ∨ slot = 1) (old new : Opened) (h : CommittedFile pagesize ov s slot old)
+    (c : CommitOK Gen.layout Gen.hashOrder pagesize ov s old new)
+    (k : KeepsState pagesize ov (commitFile Gen.layout pagesize ov (1 - slot) new s) d slot old)
+    (hbad : slotValid Gen.layout Gen.hashOrder d pagesize (1 - slot) = none)
+    (fuel : Nat) (hf : old.view.weight ≤ fuel) :
+    openFile Gen.layout Gen.hashOrder pagesize fuel d = some old := by
+  have hE := layout_fit_for_commit.1
+  have hL := layout_fit_for_commit.2
+  have hhdr : Gen.layout.pageSize ≤ pagesize := Nat.le_trans (by decide) hrec
+  obtain ⟨_, _, h3⟩ := completed_commit_shows_new_state pagesize hrec ov s slot hslot old new h c new.view.weight
+    (Nat.le_refl _)
+  refine crash_shows_old Gen.layout Gen.hashOrder pagesize (Layout.WF.of _ hE) (Layout.WFM.of _ hL) hrec hhdr ov _ d
+    slot hslot old h3 k ?_ fuel hf
+  rw [hbad]; trivial
+
+/-! ### the premises are satisfiable: a fresh four-page file -/
+
+/-- the state `init_file` writes, at page size 1024: empty root leaf at page 3, empty free list at page 2 -/
+def freshState : Opened :=
+  { hdr := MetaRec.seal Gen.layout Gen.hashOrder
+      { metaPage := 0, magic := Gen.layout.magic, version := Gen.layout.version, pagesize := 1024, rootPage := 3,
+        nextInt := 0, numPages := 4, freelistPage := 2, txId := 0, hash := 0 }
+    view := { tree := .leaf 3 [], nextInt := 0, subs := [] }
+    free := []
+    flOverflow := 0 }
+
+/-- four zeroed pages -/
+def blankFile : Src := { size := 4096, get := fun _ => 0 }
+
+/-- non-vacuity: writing `freshState` onto four blank pages (data, then the header into slot 0) gives a committed
+file, so `CommittedFile` has an inhabitant and the theorems above have a starting point -/
+theorem fresh_file_is_committed :
+    CommittedFile 1024 (fun _ => 0) (commitFile Gen.layout 1024 (fun _ => 0) 0 freshState blankFile) 0 freshState := by
+  have hE := layout_fit_for_commit.1
+  have hL := layout_fit_for_commit.2
+  have hruns : freshState.runs (fun _ => 0) = [(2, 0), (3, 0)] := by
+    rw [Opened.runs, BucketView.allRuns_eq]
+    rfl
+  have hfits : freshState.view.fits Gen.layout 1024 (fun _ => 0) blankFile.size := by
+    rw [BucketView.fits_eq]
+    exact ⟨by decide, by intro x hx; cases hx⟩
+  have hdisj : (freshState.runs (fun _ => 0)).Pairwise runsDisjoint := by
+    rw [hruns]; simp [runsDisjoint]
+  obtain ⟨hst, hfl, hsz, hout⟩ := commitData_stores Gen.layout 1024 hE hL (by decide) (fun _ => 0) freshState blankFile
+    hfits hdisj (by decide) (by decide) (by decide) (by decide) (by intro x hx; cases hx)
+  have hab : ∀ r ∈ freshState.runs (fun _ => 0), 2 ≤ r.1 := by
+    rw [hruns]; intro r hr; simp at hr; rcases hr with rfl | rfl <;> decide
+  have hok : ViewOK freshState.view := ViewOK.mk _ (by decide) (by
+    show SubsOK (subBuckets (Tree.flatten (Tree.leaf 3 []))) []
+    simp [Tree.flatten, subBuckets]; exact SubsOK.nil)
+  have hh := holds_of_header_write Gen.layout Gen.hashOrder 1024 hL (Layout.WF.of _ hE) (by decide) (by decide)
+    (fun _ => 0) (commitData Gen.layout 1024 (fun _ => 0) freshState blankFile) 0 freshState (by decide)
+    (by rw [hsz]; decide) (seal_fits Gen.layout Gen.hashOrder _ (by decide)) (seal_valid _ _ _) rfl hst hok rfl rfl hfl hab
+  refine ⟨hh, hab, ?_⟩
+  -- slot 1 is still blank: its page-type byte is 0, not META
+  have hb : ((commitFile Gen.layout 1024 (fun _ => 0) 0 freshState blankFile).get (1 * 1024 + Gen.layout.pgType)) = 0 := by
+    show (writeMetaPage Gen.layout 1024 0 freshState.hdr _).get _ = 0
+    rw [(writeMetaPage_frame Gen.layout 1024 0 freshState.hdr _ _ hL (by decide) (by right; decide)).1,
+      hout _ (by rw [hruns]; intro r hr; simp at hr; rcases hr with rfl | rfl <;> (left; decide))]
+    rfl
+  have hnone : slotValid Gen.layout Gen.hashOrder (commitFile Gen.layout 1024 (fun _ => 0) 0 freshState blankFile) 1024
+      (1 - 0) = none := by
+    unfold slotValid
+    simp only []
+    split
+    · rfl
+    · rw [hb]; rfl
+  rw [hnone]; trivial
 
 end Jamm.Props.C02
